@@ -2,6 +2,7 @@
     Statements only. *)
 From Coq Require Import String List Bool Arith.
 From Raven Require Import Model.ProtoFacts Model.Protocol Proof.Protocol Proof.Isolation Gen.Facts.
+From Raven Require Model.Policy Spec.Policy Proof.PolicyFacts Proof.IsolationDelivery.
 Import ListNotations.
 
 (** For ANY facts table satisfying [c05_facts_ok], every connection kind, every
@@ -23,6 +24,34 @@ Print Assumptions c05_isolation_of_table.
 Theorem c05_facts_now : c05_facts_ok Gen.Facts.table = true.
 Proof. vm_compute. reflexivity. Qed.
 Print Assumptions c05_facts_now.
+
+(** the delivery clause ("no delivery addressed to one recipient changes ...
+    another user's store or a role mailbox"): for every configuration, user
+    and role table, accepted-recipient list and message, every store in which
+    the LMTP model files a copy is the store of one of the transaction's
+    accepted recipients: the role store of exactly that (enabled) role
+    address, else the personal store of exactly that local part and domain.
+    (The LMTP model and these lemmas are C17's; its correspondence check ties
+    them to internal/delivery on every run, and [delivery_probe] in
+    checks/c05.py observes the full dump delta of all stores around
+    deliveries.) *)
+Theorem c05_delivery_reaches_only_recipients : forall cfg d acc m r st f,
+  In (r, Policy.D_ok st f) (Policy.do_deliveries (Policy.handle_data cfg d acc m)) ->
+  In r acc /\ Spec.Policy.spec_target d r = Some st.
+Proof. exact IsolationDelivery.delivery_reaches_only_recipients. Qed.
+Print Assumptions c05_delivery_reaches_only_recipients.
+
+Theorem c05_delivery_role_store_exact : forall cfg d acc m r e f,
+  In (r, Policy.D_ok (Policy.RoleStore e) f) (Policy.do_deliveries (Policy.handle_data cfg d acc m)) ->
+  e = r /\ In (Policy.mkRole r true) (Policy.roles d).
+Proof. exact PolicyFacts.role_store_exact. Qed.
+Print Assumptions c05_delivery_role_store_exact.
+
+Theorem c05_delivery_user_store_exact : forall cfg d acc m r n dom f,
+  In (r, Policy.D_ok (Policy.UserStore n dom) f) (Policy.do_deliveries (Policy.handle_data cfg d acc m)) ->
+  Policy.extract_parts r = Some (n, dom) /\ Policy.is_role d r = false.
+Proof. exact PolicyFacts.user_store_exact. Qed.
+Print Assumptions c05_delivery_user_store_exact.
 
 (** regression witnesses of the repaired defects: the hypotheses are not idle *)
 Theorem c05_old_accessor_breaks_isolation :
